@@ -18,7 +18,7 @@ def T(module, *names, partial=False):
           "Kanzi.Properties.C12_ans1": "Kanzi.C12", "Kanzi.Properties.C12_cm": "Kanzi.C12", "Kanzi.Properties.C13_srt": "Kanzi.C13", "Kanzi.Properties.C01_blockgen": "Kanzi.C01gen",
           "Kanzi.Properties.C19_paths": "Kanzi.C19", "Kanzi.Properties.C13_alias": "Kanzi.C13", "Kanzi.Properties.C13_lzp": "Kanzi.C13", "Kanzi.Properties.C13_fsd": "Kanzi.C13", "Kanzi.Properties.C12_binary": "Kanzi.C12", "Kanzi.Properties.C12_fpaq": "Kanzi.C12",
           "Kanzi.Properties.C12_cm_codec": "Kanzi.C12", "Kanzi.Properties.C13_lz": "Kanzi.C13", "Kanzi.Properties.C13_lz_consts": "Kanzi.ConstsTie",
-          "Kanzi.Properties.C12_tpaq": "Kanzi.C12", "Kanzi.Properties.C12_tpaq_codec": "Kanzi.C12", "Kanzi.Properties.C12_huffman": "Kanzi.C12", "Kanzi.Properties.C13_utf": "Kanzi.C13", "Kanzi.Properties.C13_bwts": "Kanzi.C13", "Kanzi.Properties.C01_blockgen2": "Kanzi.C01gen", "Kanzi.Properties.C13_exe": "Kanzi.C13", "Kanzi.Properties.C13_bwt": "Kanzi.C13", "Kanzi.Properties.C13_rolz": "Kanzi.C13", "Kanzi.Properties.C13_rolz_consts": "Kanzi.ConstsTie", "Kanzi.Properties.C13_text": "Kanzi.C13", "Kanzi.Properties.C01_blockgen3": "Kanzi.C01gen", "Kanzi.Properties.C01_text_inst": "Kanzi.C01gen", "Kanzi.Properties.C03_rangebin": "Kanzi.C03", "Kanzi.Properties.C03_ans": "Kanzi.C03", "Kanzi.Properties.C03_ans_ex": "Kanzi.C03", "Kanzi.Properties.AllocsTie": "Kanzi.AllocsTie", "Kanzi.Properties.C03_huffman": "Kanzi.C03", "Kanzi.Properties.C03_text": "Kanzi.C03", "Kanzi.Properties.C03_rolz": "Kanzi.C03"}[module]
+          "Kanzi.Properties.C12_tpaq": "Kanzi.C12", "Kanzi.Properties.C12_tpaq_codec": "Kanzi.C12", "Kanzi.Properties.C12_huffman": "Kanzi.C12", "Kanzi.Properties.C13_utf": "Kanzi.C13", "Kanzi.Properties.C13_bwts": "Kanzi.C13", "Kanzi.Properties.C01_blockgen2": "Kanzi.C01gen", "Kanzi.Properties.C13_exe": "Kanzi.C13", "Kanzi.Properties.C13_bwt": "Kanzi.C13", "Kanzi.Properties.C13_rolz": "Kanzi.C13", "Kanzi.Properties.C13_rolz_consts": "Kanzi.ConstsTie", "Kanzi.Properties.C13_text": "Kanzi.C13", "Kanzi.Properties.C01_blockgen3": "Kanzi.C01gen", "Kanzi.Properties.C01_text_inst": "Kanzi.C01gen", "Kanzi.Properties.C03_rangebin": "Kanzi.C03", "Kanzi.Properties.C03_ans": "Kanzi.C03", "Kanzi.Properties.C03_ans_ex": "Kanzi.C03", "Kanzi.Properties.AllocsTie": "Kanzi.AllocsTie", "Kanzi.Properties.C03_huffman": "Kanzi.C03", "Kanzi.Properties.C03_text": "Kanzi.C03", "Kanzi.Properties.C03_rolz": "Kanzi.C03", "Kanzi.Properties.C03_huffman_agree": "Kanzi.C03", "Kanzi.Properties.C03_rolz_link": "Kanzi.C03"}[module]
     return [{"module": module, "name": n if n.startswith("Kanzi.") else ns + "." + n, "partial": partial or n.endswith("_partial")} for n in names]
 
 
@@ -157,9 +157,9 @@ PROPS["C03"] = {
                 + T("Kanzi.Properties.C13_rlt", "C13_rlt_total") + T("Kanzi.Properties.C13_fsd", "C13_fsd_total") + T("Kanzi.Properties.C13_exe", "C13_exe_total")
                 + T("Kanzi.Properties.C13_bwts", "C13_bwts_total") + T("Kanzi.Properties.C12_huffman", "C12_huf_decoder_machine")
                 + T("Kanzi.Properties.C03_rangebin", "C03_range_renorm_bounded", "C03_range_classes", "C03_range_terminates", "C03_range_alloc_bound", "C03_range_header_no_fault", "C03_range_fault_site", "C03_range_fault_reachable", "C03_range_stale_f2s", "C03_range_agrees", "C03_range_roundtrip", "C03_binary_interval_total", "C03_binary_no_fault_if", "C03_binary_fault_reachable", "C03_binary_terminates", "C03_binary_alloc_bound", "C03_binary_alloc_bound_real", "C03_binary_agrees", "C03_fpaq_interval_total", "C03_fpaq_no_fault_if", "C03_fpaq_terminates", "C03_fpaq_alloc_bound", "C03_fpaq_models_safe", "C03_fpaq_v1_refill_once", "C03_fpaq_agrees")
-                + T(MBO, "decoder_layouts", "bitops_nonvacuous") + T("Kanzi.Properties.AllocsTie", "decoder_side_functions", "ans_decoder_allocs", "ans_model_rules", "range_binary_decoder_allocs", "huffman_decoder_allocs", "reader_allocs", "inverse_transform_allocs", "allocs_nonvacuous") + T(MCT, "entropy_consts", "range_consts") + T("Kanzi.Properties.C03_ans", *ANS_THMS) + T("Kanzi.Properties.C03_rolz", "C03_rolzx_terminates", "C03_rolzx_refill_once", "C03_rolzx_fault_classes", "C03_rolzx_short_input", "C03_rolzx_alloc_bound", "C03_rolzx_output_bound", "C03_rolzx_agree", "C03_rolz_terminates_partial", "C03_rolz_fault_classes", "C03_rolz_forged_length", "C03_rolz_alloc_bound", "C03_rolz_ans_alloc", "C03_rolz_output_bound", "C03_rolz_agree") + T("Kanzi.Properties.C03_text", "C03_text1_total", "C03_text2_total", "C03_text_iterations", "C03_text_step", "C03_text_trace", "C03_text1_alloc_bound", "C03_text2_alloc_bound", "C03_text1_panic_iff", "C03_text1_readidx_panic_iff", "C03_text2_readidx", "C03_text2_readidx_panic_iff", "C03_text_reuse_total", "C03_text_reuse_sizes", "C03_text1_agrees", "C03_text2_agrees") + T("Kanzi.Properties.C03_huffman", "C03_huf_params", "C03_huf_terminates", "C03_huf_v6_alloc", "C03_huf_v5_alloc_bound", "C03_huf_alloc_bound", "C03_huf_v5_alloc_rule", "C03_huf_v5_forged_size_rejected", "C03_huf_v6_no_fault", "C03_huf_fault_only_v5", "C03_huf_header_no_fault", "C03_huf_table_no_fault", "C03_huf_table_entries", "C03_huf_v6_readstate_safe", "C03_huf_v5_fault_example", "C03_huf_header_agrees", "C03_huf_table_agrees") + T("Kanzi.Properties.C03_ans_ex", "C03_ans_v1_forged_size_rejected", "C03_ans_v1_forged_size_no_alloc", "C03_ans_overrun_example"),
+                + T(MBO, "decoder_layouts", "bitops_nonvacuous") + T("Kanzi.Properties.AllocsTie", "decoder_side_functions", "ans_decoder_allocs", "ans_model_rules", "range_binary_decoder_allocs", "huffman_decoder_allocs", "reader_allocs", "inverse_transform_allocs", "allocs_nonvacuous") + T(MCT, "entropy_consts", "range_consts") + T("Kanzi.Properties.C03_ans", *ANS_THMS) + T("Kanzi.Properties.C03_huffman_agree", "C03_huf_agrees", "C03_huf_agrees_decode", "C03_huf_agrees_twice", "C03_huf_chunk_agrees", "C03_huf_substream_walk") + T("Kanzi.Properties.C03_rolz_link", "C03_rolz_ans_fuel", "C03_rolz_ans_loop_fuel", "C03_rolz_ans_reads_terminate", "C03_rolz_terminates", "C03_rolz_ans_link_partial", "C03_rolz_ans_stale_witness") + T("Kanzi.Properties.C03_rolz", "C03_rolzx_terminates", "C03_rolzx_refill_once", "C03_rolzx_fault_classes", "C03_rolzx_short_input", "C03_rolzx_alloc_bound", "C03_rolzx_output_bound", "C03_rolzx_agree", "C03_rolz_terminates_partial", "C03_rolz_fault_classes", "C03_rolz_forged_length", "C03_rolz_alloc_bound", "C03_rolz_ans_alloc", "C03_rolz_output_bound", "C03_rolz_agree") + T("Kanzi.Properties.C03_text", "C03_text1_total", "C03_text2_total", "C03_text_iterations", "C03_text_step", "C03_text_trace", "C03_text1_alloc_bound", "C03_text2_alloc_bound", "C03_text1_panic_iff", "C03_text1_readidx_panic_iff", "C03_text2_readidx", "C03_text2_readidx_panic_iff", "C03_text_reuse_total", "C03_text_reuse_sizes", "C03_text1_agrees", "C03_text2_agrees") + T("Kanzi.Properties.C03_huffman", "C03_huf_params", "C03_huf_terminates", "C03_huf_v6_alloc", "C03_huf_v5_alloc_bound", "C03_huf_alloc_bound", "C03_huf_v5_alloc_rule", "C03_huf_v5_forged_size_rejected", "C03_huf_v6_no_fault", "C03_huf_fault_only_v5", "C03_huf_header_no_fault", "C03_huf_table_no_fault", "C03_huf_table_entries", "C03_huf_v6_readstate_safe", "C03_huf_v5_fault_example", "C03_huf_header_agrees", "C03_huf_table_agrees") + T("Kanzi.Properties.C03_ans_ex", "C03_ans_v1_forged_size_rejected", "C03_ans_v1_forged_size_no_alloc", "C03_ans_overrun_example"),
     "streams": [IMAGE, JOBS, SR, FUZZDEC, DECFORGE, ANSDEC, HUFDEC, TEXTDEC, ROLZDEC],
-    "level_text": "PARTIAL PROOF. Proved: (1) every `go` statement of the library spawns a function with a deferred recover and the caller-goroutine entry points recover (theorem by `decide` over Generated/GoSites.lean, re-extracted from /repo's AST on every run, so a new unrecovered goroutine breaks the proof); (2) the decode hand-off protocol has no deadlock or endless wait for any number of tasks and any failure placement (C07_dec_progress etc.); (3) a task never allocates for or reads a frame longer than a bound that depends on the block size only (C03_frame_bound over the frame parser that the image stream compares with the real Reader on damaged and cut streams). (4) several decoders are proved TOTAL on arbitrary (attacker-controlled) input: RLT, MM, EXE and BWTS Inverse never index out of range, BWTBlockCodec.Inverse returns a block or an error on any input (C13_*_total), the Huffman table decoder stays inside its buffer on corrupted payloads (C12_huf_decoder_machine); for SRT, LZ, LZP, PACK/DNA and UTF the exact malformed inputs on which Inverse faults are theorems (recovered by the task). (5) the entropy decoders RANGE, BINARY (CM/TPAQ/TPAQX), FPAQ and ANS order 0/1 are modelled on ARBITRARY bit strings from arbitrary prior object states: every loop is bounded (C03_range_terminates, C03_binary_terminates, C03_fpaq_terminates, C03_ans_terminates), every allocation is bounded by the declared sizes on every path (C03_*_alloc_bound; the ANS version-1 bound only holds since fix a7dd04c = F47), the reachable panics are exactly named (C03_range_fault_site, C03_binary_no_fault_if, C03_ans_no_fault, C03_ans_overrun_iff) and recovered by the task; streams decforge / ansdec compare class and buffer capacities with the real decoders on forged input. Huffman decoder likewise (C03_huf_terminates, C03_huf_alloc_bound, C03_huf_v6_no_fault: the version-6 decoder never faults on any input; the legacy version-5 bound only holds since fix 97146d4 = F48; stream hufdec). TEXT Inverse (both delegates, fresh or reused codec object) is total on every input: outcome classes, at most len(src) iterations, dictionary bounded by what the source length pays for, exact panic conditions (C03_text1_total, C03_text2_total, C03_text_iterations, C03_text*_alloc_bound, C03_text*_panic_iff; stream textdec). ROLZX Inverse: terminates on every input, faults only in three named index classes, allocates nothing sized from the stream (C03_rolzx_*); ROLZ Inverse: chunk / main / registration loops terminate, nine named fault classes, forged sub-stream lengths rejected before any decoder is created, allocation <= 2*len(dst) + 65536*2^lpc (C03_rolz_*; `_partial`: the four ANS Read calls per chunk are the Option-valued ANS models of the rolz slice, whose termination is C03_ans_terminates over a separate model - the two are linked by the streams only); stream rolzdec. What is still only searched: the CM/TPAQ predictors' Update on forged bits beyond Pred.Safe, DivSufSort (encoder side only) (fuzzdec: structure-aware mutations - re-checksummed headers, forged lengths, forged codec headers, splices, truncations - decoded in child processes with a watchdog).",
+    "level_text": "PARTIAL PROOF. Proved: (1) every `go` statement of the library spawns a function with a deferred recover and the caller-goroutine entry points recover (theorem by `decide` over Generated/GoSites.lean, re-extracted from /repo's AST on every run, so a new unrecovered goroutine breaks the proof); (2) the decode hand-off protocol has no deadlock or endless wait for any number of tasks and any failure placement (C07_dec_progress etc.); (3) a task never allocates for or reads a frame longer than a bound that depends on the block size only (C03_frame_bound over the frame parser that the image stream compares with the real Reader on damaged and cut streams). (4) several decoders are proved TOTAL on arbitrary (attacker-controlled) input: RLT, MM, EXE and BWTS Inverse never index out of range, BWTBlockCodec.Inverse returns a block or an error on any input (C13_*_total), the Huffman table decoder stays inside its buffer on corrupted payloads (C12_huf_decoder_machine); for SRT, LZ, LZP, PACK/DNA and UTF the exact malformed inputs on which Inverse faults are theorems (recovered by the task). (5) the entropy decoders RANGE, BINARY (CM/TPAQ/TPAQX), FPAQ and ANS order 0/1 are modelled on ARBITRARY bit strings from arbitrary prior object states: every loop is bounded (C03_range_terminates, C03_binary_terminates, C03_fpaq_terminates, C03_ans_terminates), every allocation is bounded by the declared sizes on every path (C03_*_alloc_bound; the ANS version-1 bound only holds since fix a7dd04c = F47), the reachable panics are exactly named (C03_range_fault_site, C03_binary_no_fault_if, C03_ans_no_fault, C03_ans_overrun_iff) and recovered by the task; streams decforge / ansdec compare class and buffer capacities with the real decoders on forged input. Huffman decoder likewise (C03_huf_terminates, C03_huf_alloc_bound, C03_huf_v6_no_fault: the version-6 decoder never faults on any input; the legacy version-5 bound only holds since fix 97146d4 = F48; stream hufdec). TEXT Inverse (both delegates, fresh or reused codec object) is total on every input: outcome classes, at most len(src) iterations, dictionary bounded by what the source length pays for, exact panic conditions (C03_text1_total, C03_text2_total, C03_text_iterations, C03_text*_alloc_bound, C03_text*_panic_iff; stream textdec). ROLZX Inverse: terminates on every input, faults only in three named index classes, allocates nothing sized from the stream (C03_rolzx_*); ROLZ Inverse: chunk / main / registration loops terminate, nine named fault classes, forged sub-stream lengths rejected before any decoder is created, allocation <= 2*len(dst) + 65536*2^lpc (C03_rolz_*, C03_rolz_terminates: the fuel the model gives its ANS calls is never binding - C03_rolz_ans_fuel - and AnsDec.read terminates with exactly the parameters ROLZ uses - C03_rolz_ans_reads_terminate; the two ANS models agree decoder-to-decoder on the raw path only, C03_rolz_ans_link_partial, and provably DIFFER in the decoded bytes when a forged sub-stream reads bytes a previous Read left in the shared decoder object, C03_rolz_ans_stale_witness: a limit of the rolz slice's model, so the rolzdec stream compares class, length and table sizes but not bytes for forged ROLZ input); stream rolzdec. What is still only searched: the CM/TPAQ predictors' Update on forged bits beyond Pred.Safe, DivSufSort (encoder side only) (fuzzdec: structure-aware mutations - re-checksummed headers, forged lengths, forged codec headers, splices, truncations - decoded in child processes with a watchdog).",
     "level_note": BASE_NOTE + "The syntactic fact extractor harness/cmd/kv/facts_ast.go (go/parser; one level of callee resolution; self-tested). Codec internals are outside the model.",
     "assumptions": ["a deferred recover at the top of every spawned function converts every panic of that goroutine into a task error", "the ANS sub-decoders inside ROLZ Inverse terminate (proved for the stand-alone ANS model, linked by the rolzdec stream only)"],
 }
